@@ -153,7 +153,10 @@ fn one_shot(ctx: &mut Ctx, name: &str, x: &[u8], codec: u8, rng: &mut Rng, py_di
 
 fn streamed(ctx: &mut Ctx, name: &str, x: &[u8], codec: u8, chunks: &Sched, under: &Sched, asyncm: bool, rng: &mut Rng) {
     let comp = gen::comp(codec);
-    let mode = format!("streamed chunks={} stream={} async={asyncm}", chunks.describe(), under.describe());
+    // half of the streams are flushed now and then in the middle (write, flush, write, ...): legal, and the stream must stay one
+    // standard stream that decodes to the input
+    let mid_flush = (hash_bytes(x) ^ u64::from(codec) ^ chunks.describe().len() as u64) % 2 == 0;
+    let mode = format!("streamed chunks={} stream={} async={asyncm} flushes-in-between={mid_flush}", chunks.describe(), under.describe());
     let m = mat(name, x, codec, &mode);
     // ---- write side
     let z: Vec<u8> = if asyncm {
@@ -175,6 +178,9 @@ fn streamed(ctx: &mut Ctx, name: &str, x: &[u8], codec: u8, chunks: &Sched, unde
                         let n = next_chunk(&mut sch, x.len() - at);
                         w.write_all(&x[at..at + n]).await?;
                         at += n;
+                        if mid_flush && at < x.len() && (at / n.max(1)) % 3 == 1 {
+                            w.flush().await?;
+                        }
                     }
                     w.close().await
                 } else {
@@ -184,6 +190,9 @@ fn streamed(ctx: &mut Ctx, name: &str, x: &[u8], codec: u8, chunks: &Sched, unde
                         let n = next_chunk(&mut sch, x.len() - at);
                         w.write_all(&x[at..at + n]).await?;
                         at += n;
+                        if mid_flush && at < x.len() && (at / n.max(1)) % 3 == 1 {
+                            w.flush().await?;
+                        }
                     }
                     w.close().await
                 }
@@ -220,6 +229,9 @@ fn streamed(ctx: &mut Ctx, name: &str, x: &[u8], codec: u8, chunks: &Sched, unde
                         let n = next_chunk(&mut sch, x.len() - at);
                         w.write_all(&x[at..at + n])?;
                         at += n;
+                        if mid_flush && at < x.len() && (at / n.max(1)) % 3 == 1 {
+                            w.flush()?;
+                        }
                     }
                     w.flush()?;
                 }
@@ -232,6 +244,9 @@ fn streamed(ctx: &mut Ctx, name: &str, x: &[u8], codec: u8, chunks: &Sched, unde
                 let n = next_chunk(&mut sch, x.len() - at);
                 w.write_all(&x[at..at + n])?;
                 at += n;
+                if mid_flush && at < x.len() && (at / n.max(1)) % 3 == 1 {
+                    w.flush()?;
+                }
             }
             w.flush()?; // documented usage: flush, then drop finishes the stream
             drop(w);
@@ -280,7 +295,13 @@ fn streamed(ctx: &mut Ctx, name: &str, x: &[u8], codec: u8, chunks: &Sched, unde
                 let mut r = decompress_async(comp, &mut inp)?;
                 let mut out = Vec::new();
                 let mut buf = vec![0u8; 70_000];
+                let mut turn = 0u32;
                 loop {
+                    turn += 1;
+                    if turn % 5 == 2 {
+                        // a read into an empty buffer in the middle of the stream (returns 0 and must change nothing)
+                        let _ = r.read(&mut buf[..0]).await;
+                    }
                     let want = next_chunk(&mut sch, buf.len());
                     let n = r.read(&mut buf[..want]).await?;
                     if n == 0 {
@@ -299,7 +320,14 @@ fn streamed(ctx: &mut Ctx, name: &str, x: &[u8], codec: u8, chunks: &Sched, unde
             let mut r = decompress(comp, &mut inp)?;
             let mut out = Vec::new();
             let mut buf = vec![0u8; 70_000];
+            let mut turn = 0u32;
             loop {
+                turn += 1;
+                if turn % 5 == 2 {
+                    // a read into an empty buffer; what it answers is not judged (the upstream zstd reader reports an error for
+                    // it), but the stream must go on unharmed afterwards
+                    let _ = r.read(&mut buf[..0]);
+                }
                 let want = next_chunk(&mut sch, buf.len());
                 let n = r.read(&mut buf[..want])?;
                 if n == 0 {
